@@ -76,7 +76,8 @@ def sizes(cls, max_L, max_L_2d=None, max_color=None, thin=False):
     dim = DIM[cls]
     if cls == 'Color666PlanarCode':
         top = max_color if max_color is not None else max_L
-        return [(L, L) for L in range(1, top + 1)]
+        # L_y is accepted (and recorded) independently of L_x
+        return [(L, Ly) for L in range(1, top + 1) for Ly in range(1, top + 1)]
     if cls in COLOR_2D:
         top = max_color if max_color is not None else max_L
     elif dim == 2:
@@ -166,7 +167,7 @@ def code_cases(draw, max_L=8, max_L_2d=14, max_color=5, max_n=1500,
     for _ in range(40):
         if cls == 'Color666PlanarCode':
             L = draw(st.integers(1, top))
-            size = (L, L)
+            size = (L, draw(st.sampled_from([L, L, 1, draw(st.integers(1, top))])))
         elif cls in ('RhombicToricCode', 'Color3DCode'):
             size = tuple(draw(st.lists(
                 st.integers(1, max(1, top // 2)).map(lambda v: 2 * v),
